@@ -44,6 +44,8 @@ class Registry:
         self.shape_bases = {}
         self.functions = {}      # spec function name -> (arg sorts, result sort)
         self.axioms = []         # (name, vars {name: sort}, expr)
+        self.link_axioms = set()
+        self.inline_closure_args = set()   # targets executed inline (contract not used) when a local closure is passed to them
         self.lemmas = []         # (name, props, vars, assumes, goal)
         self.defs = {}           # spec macro name -> (params, expr)
         self.inline = set()      # targets inlined at call sites
@@ -76,8 +78,11 @@ class Registry:
     def function(self, name, args, result):
         self.functions[name] = (list(args), result)
 
-    def axiom(self, name, vars, expr):
+    def axiom(self, name, vars, expr, link=False):
+        """link=True: an axiom relating two definitions; it joins a problem only when ALL the functions it mentions occur there"""
         self.axioms.append((name, dict(vars), expr))
+        if link:
+            self.link_axioms.add(name)
 
     def lemma(self, name, props, vars, assumes, goal, induction=None, background=True):
         self.lemmas.append(dict(name=name, props=list(props), vars=dict(vars), assumes=list(assumes), goal=goal, induction=induction,
